@@ -66,12 +66,21 @@ InLoad ==      \* status := relayStatus.Load()
     /\ stI' = status /\ pcI' = IF status = "H" THEN "lock" ELSE "fwd"
     /\ UNCHANGED <<status, lock, inQ, outQ, inRest, outRest, sin, cout, junk, fedC, fedS, nIn, nOut, bufI, pcO, bufO, stO, pcW, wtok, werr, confirm>>
 
-InPark ==      \* addHandshakeBuffer: Lock; re-load; park or give up; Unlock  (one critical section)
+(* addHandshakeBuffer is one critical section, but the status it re-reads can be changed by a    *)
+(* lock-free CAS (resetToStandby of the other direction) right after the read: the read is the  *)
+(* linearisation point, so Lock + re-load and park-or-give-up + Unlock are two actions.         *)
+InLock ==      \* addHandshakeBuffer: Lock; status := relayStatus.Load()
     /\ pcI = "lock" /\ lock = "free"
-    /\ IF ~Recheck \/ status = "H"
-       THEN /\ inQ' = Append(inQ, bufI) /\ bufI' = <<>> /\ pcI' = "read" /\ stI' = stI
-       ELSE /\ stI' = status /\ pcI' = "fwd" /\ UNCHANGED <<inQ, bufI>>
-    /\ UNCHANGED <<status, lock, outQ, inRest, outRest, sin, cout, junk, fedC, fedS, nIn, nOut, pcO, bufO, stO, pcW, wtok, werr, confirm>>
+    /\ lock' = "In" /\ stI' = (IF Recheck THEN status ELSE stI) /\ pcI' = "park"
+    /\ UNCHANGED <<status, inQ, outQ, inRest, outRest, sin, cout, junk, fedC, fedS, nIn, nOut, bufI, pcO, bufO, stO, pcW, wtok, werr, confirm>>
+
+InPark ==      \* ... park (still handshaking) or give up; Unlock
+    /\ pcI = "park" /\ lock = "In"
+    /\ lock' = "free"
+    /\ IF stI = "H"
+       THEN /\ inQ' = Append(inQ, bufI) /\ bufI' = <<>> /\ pcI' = "read"
+       ELSE /\ pcI' = "fwd" /\ UNCHANGED <<inQ, bufI>>
+    /\ UNCHANGED <<status, outQ, inRest, outRest, sin, cout, junk, fedC, fedS, nIn, nOut, stI, pcO, bufO, stO, pcW, wtok, werr, confirm>>
 
 InFwd ==       \* osStdinChan <- buf
     /\ pcI = "fwd"
@@ -95,12 +104,18 @@ OutLoad ==
     /\ stO' = status /\ pcO' = IF status = "H" THEN "lock" ELSE "fwd"
     /\ UNCHANGED <<status, lock, inQ, outQ, inRest, outRest, sin, cout, junk, fedC, fedS, nIn, nOut, pcI, bufI, stI, bufO, pcW, wtok, werr, confirm>>
 
-OutPark ==
+OutLock ==
     /\ pcO = "lock" /\ lock = "free"
-    /\ IF ~Recheck \/ status = "H"
-       THEN /\ outQ' = Append(outQ, bufO) /\ bufO' = <<>> /\ pcO' = "read" /\ stO' = stO
-       ELSE /\ stO' = status /\ pcO' = "fwd" /\ UNCHANGED <<outQ, bufO>>
-    /\ UNCHANGED <<status, lock, inQ, inRest, outRest, sin, cout, junk, fedC, fedS, nIn, nOut, pcI, bufI, stI, pcW, wtok, werr, confirm>>
+    /\ lock' = "Out" /\ stO' = (IF Recheck THEN status ELSE stO) /\ pcO' = "park"
+    /\ UNCHANGED <<status, inQ, outQ, inRest, outRest, sin, cout, junk, fedC, fedS, nIn, nOut, pcI, bufI, stI, bufO, pcW, wtok, werr, confirm>>
+
+OutPark ==
+    /\ pcO = "park" /\ lock = "Out"
+    /\ lock' = "free"
+    /\ IF stO = "H"
+       THEN /\ outQ' = Append(outQ, bufO) /\ bufO' = <<>> /\ pcO' = "read"
+       ELSE /\ pcO' = "fwd" /\ UNCHANGED <<outQ, bufO>>
+    /\ UNCHANGED <<status, inQ, inRest, outRest, sin, cout, junk, fedC, fedS, nIn, nOut, pcI, bufI, stI, stO, pcW, wtok, werr, confirm>>
 
 OutFwd ==      \* transferring: bypass (+ end markers); otherwise run the detector: a trigger goes to OutTrigger
     /\ pcO = "fwd"
@@ -223,8 +238,8 @@ SrvReady == /\ nOut < Len(SrvChunks)
             /\ \A i \in 1..Len(SrvChunks[nOut + 1]) :      \* a second trigger only after the first transfer ended
                   (K(SrvChunks[nOut + 1][i]) = TRIG /\ R(SrvChunks[nOut + 1][i]) = 2) => status = "S" /\ pcW \in {"off", "done"} /\ nIn > 0
 
-Next == (CliReady /\ InRead(CliChunks[nIn + 1])) \/ InLoad \/ InPark \/ InFwd \/ InMark
-        \/ (SrvReady /\ OutRead(SrvChunks[nOut + 1])) \/ OutLoad \/ OutPark \/ OutFwd \/ OutStoreH \/ OutTrigger \/ OutMark
+Next == (CliReady /\ InRead(CliChunks[nIn + 1])) \/ InLoad \/ InLock \/ InPark \/ InFwd \/ InMark
+        \/ (SrvReady /\ OutRead(SrvChunks[nOut + 1])) \/ OutLoad \/ OutLock \/ OutPark \/ OutFwd \/ OutStoreH \/ OutTrigger \/ OutMark
         \/ WkRecvAct \/ WkSendAct \/ WkRecvCfg \/ WkSendCfg \/ WkErrC \/ WkErrS
         \/ WkFlushLock \/ WkStore \/ WkUnlock \/ WkFlush2 \/ WkFlush3
 
